@@ -147,6 +147,8 @@ class Executor:
                 self.model.add_axiom(e0 != NONE)
                 self.model.add_axiom(z3.ForAll([x], z3.Not(set_mem(e0, x, ty.elem))))
             return V(e0, ty)
+        if v.ty is TUPLE and isinstance(ty, SeqT) and len(v.py) == 0:
+            return V(z3.Const("seq.empty", Ref), ty)          # the empty tuple (one object in CPython; axioms: not None, length 0)
         if v.ty is TUPLE and isinstance(ty, SeqT) and len(v.py) > 0 and all(x.ty == ty.elem for x in v.py):
             # a tuple display used where a sequence is expected: a literal sequence term, characterised by a global axiom
             n = len(v.py)
@@ -317,6 +319,15 @@ class Executor:
         if v is None:
             if self.lenient:
                 return V(fresh("havoc", Ref), ObjT("Opaque"))
+            bty = base.ty.inner if isinstance(base.ty, OptT) else base.ty
+            if isinstance(bty, ObjT) and bty.name in self.model.classes and bty.name != "Opaque" and not attr.startswith("__"):
+                # an attribute the class table does not declare: read as an unconstrained (but per-object fixed) value - an over-approximation
+                note = f"undeclared attribute {bty.name}.{attr} is read as an unconstrained value"
+                if note not in self.model.assumptions:
+                    self.model.assumptions.append(note)
+                if isinstance(base.ty, OptT):
+                    self.safety("not None before ." + attr, st, base.term != NONE, node, "AttributeError")
+                return V(fn(f"undeclared.{bty.name}.{attr}", Ref, Ref)(base.term), ObjT("Opaque"))
             raise Unsupported(f"attribute .{attr} of {base!r} at line {getattr(node, 'lineno', '?')}")
         return v
 
@@ -411,6 +422,9 @@ class Executor:
         r = self.model.eq(self, a, b, identity=True)
         if r is not None:
             return r
+        for x, y in ((a, b), (b, a)):
+            if x.ty is TUPLE and len(x.py) == 0 and is_ref(y.ty):
+                return y.term == z3.Const("seq.empty", Ref)
         if is_ref(a.ty) and is_ref(b.ty):
             return a.term == b.term
         if a.ty is BOOL and b.ty is BOOL:
